@@ -152,6 +152,8 @@ def scn_text(root, reporter, mode, log):
     out = ["reporter " + reporter, "log " + log]
     if mode == "twice":
         out.append("run twice")
+    elif mode == "inproc-forked":
+        out.append("run inproc-forked")
     elif mode not in ("forked", "inproc"):
         out.append("run single t%d" % mode[1])
     else:
